@@ -83,6 +83,8 @@ class Ctx:
         if self.round > 0 and key in self._cache:
             return self._cache[key]
         t = time.time()
+        if expect != "ok":
+            workers = 1   # a run that must violate: breadth-first with one worker reports the same (shallowest) violation every time
         rc, out = self._tlc(module + ".tla", cfg, self.specdir, workers, timeout, extra)
         m = re.search(r"(\d+) states generated, (\d+) distinct states found", out)
         gen, dist = (int(m.group(1)), int(m.group(2))) if m else (0, 0)
